@@ -1,0 +1,39 @@
+package pugjs
+
+import (
+	"context"
+	"io"
+	"os"
+	"path/filepath"
+	"testing"
+
+	"flamingo.me/flamingo/v3/framework/flamingo"
+	"github.com/stretchr/testify/assert"
+)
+
+// a filtered load as the very first load must not keep the first render from loading all templates
+func TestFilteredLoadFirstDoesNotHideOtherTemplates(t *testing.T) {
+	dir := t.TempDir()
+	page := filepath.Join(dir, "template", "page")
+	assert.NoError(t, os.MkdirAll(page, 0o755))
+	for _, name := range []string{"a", "b"} {
+		ast := `{"type":"Block","nodes":[{"type":"Text","val":"` + name + `"}]}`
+		assert.NoError(t, os.WriteFile(filepath.Join(page, name+".ast.json"), []byte(ast), 0o644))
+	}
+
+	e := NewEngineWithOptions()
+	e.Basedir = dir
+	e.Logger = flamingo.NullLogger{}
+	e.FuncProvider = func() map[string]flamingo.TemplateFunc { return nil }
+
+	assert.NoError(t, e.LoadTemplates("a"))
+
+	r, err := e.Render(context.Background(), "b", nil)
+	assert.NoError(t, err)
+	if err == nil {
+		out, _ := io.ReadAll(r)
+		assert.Equal(t, "b", string(out))
+	}
+
+	assert.Error(t, e.LoadTemplates(""), "all templates are loaded once")
+}
